@@ -162,7 +162,7 @@ fn pick_schema(rng: &mut Rng, dim: usize, allow_inexact: bool) -> Schema {
 
 pub fn generate(rng: &mut Rng, cfg: &HistCfg) -> History {
     let rg = if rng.chance(0.6) { Regime::Int } else { Regime::Dyadic };
-    let in_dim = 1 + rng.below(3);
+    let in_dim = 1 + rng.below(if rng.big { 4 } else { 3 });
     let mut exact = true;
     // biased to output dimensions >= 2 so that a predicate posing as terminal is caught by shape
     let mut out_dim = if rng.chance(0.75) { 2 + rng.below(2) } else { 1 };
